@@ -200,6 +200,10 @@ async fn run(input: RunInput, mode: Mode) -> RunOutput {
     let mut r_cpu = w.rng("wl:cpu-bound");
     let mut r_hangup = w.rng("wl:hangup");
     let mut holder_until = vec![0u64; 5];
+    let poison_ok = w.flag("a_handler_may_panic", 0.3);
+    // the node whose connection manager went down with its application's panic: it publishes
+    // nothing any more (its event log just ends)
+    let mut panicked: Option<usize> = None;
     // explicit disconnects on a clean network: (time, who disconnected, whom)
     let mut clean_disconnects: Vec<(u64, usize, usize)> = Vec::new();
     // instants at which a node was cut off from everybody (silent death, crash before a restart)
@@ -384,6 +388,17 @@ async fn run(input: RunInput, mode: Mode) -> RunOutput {
             crashed = true;
             interesting = true;
             desc = format!("silent-death n{i}");
+        } else if kind < 59 && !faulty && silent_death.is_none() && poison_ok && w.now_ms() > 500 && slots[i].node.net.peers().contains(&ids[j]) {
+            // the application's handler at n{j} panics on a request. anemo propagates such a panic
+            // up to the connection manager: the node goes down, closing its connections - from then
+            // on it is as dead as after a silent death, only that everybody is told at once
+            let _ = tokio::time::timeout(Duration::from_secs(5), slots[i].node.net.rpc(ids[j], Request::new(Bytes::from_static(b"poison")).with_header("x-panic", "1"))).await;
+            silent_death = Some((w.now_ns(), j));
+            panicked = Some(j);
+            crashed = true;
+            interesting = true;
+            w.probe("application-handler-panicked");
+            desc = format!("handler-panic n{j}");
         } else if kind < 63 {
             // restart with the same identity and address; half of them after a *crash*: the node is
             // cut off from everybody first, so no peer hears a close, and the new incarnation
@@ -676,7 +691,7 @@ async fn run(input: RunInput, mode: Mode) -> RunOutput {
             for (idx, (t, ev)) in logs[a].iter().enumerate() {
                 let PeerEvent::LostPeer(p, reason) = ev else { continue };
                 let Some(b) = ids.iter().position(|x| x == p) else { continue };
-                if slots[b].incarnation > 0 {
+                if slots[b].incarnation > 0 || panicked == Some(b) {
                     continue;
                 }
                 let deadline = t + bound_ns;
